@@ -65,6 +65,8 @@ theorem bip143_preimage_eq (H : Bytes → Bytes) (tx : Tx) (nIn : Nat) (script :
     makes the working copy shallower, or adds a write elsewhere, breaks this obligation (and the Go-side
     deep snapshot comparison finds the input). -/
 theorem clone_structure_pinned :
+    -- the first statement rebinds `tx` to the clone: every later assignment through `tx` is to the copy
+    Gen.Facts.tx_Tx_SignatureHashForInput_first = "tx = tx.Clone()" ∧
     Gen.Facts.tx_Tx_SignatureHashForInput_calls.head? = some "tx.Clone" ∧
     Gen.Facts.tx_Tx_SignatureHashForInput_assigns.all (fun a =>
       ["tx.Witnesses", "hashed[0]", "tx.Inputs[nInput].Script", "tx.Inputs", "vin.Script", "vin.Sequence",
